@@ -295,6 +295,12 @@ theorem ggswEncryptSk_facts (be : BE) (n : Nat) (k : K) (hn : n % 8 = 0) :
   simp only [reqA]
   omega
 
+/-- one line for every operation whose tree satisfies `fits ∧ aligned ∧ reqA ≤ tmp_bytes` -/
+theorem ok_of_facts {t : AllocTree} {tb : Nat} (h : fits t = true ∧ aligned t = true ∧ reqA t ≤ tb) (a : Arena)
+    (ha : tb ≤ a.available) : (run t a).isOk = true :=
+  run_ok_of_aligned t h.1 h.2.1 a (Nat.le_trans h.2.2 ha)
+
+
 /-! ### poulpy-bin-fhe -/
 
 theorem cmux_facts (be : BE) (n : Nat) (res : G) (k : K) (hn : n % 8 = 0)
